@@ -3,7 +3,7 @@ import re
 
 import vlib
 import gen_c14
-from props import c14_builder
+from props import c14_builder, c14_a64oracle
 
 PID = "C14"
 MANIFEST = {
@@ -34,6 +34,7 @@ MANIFEST = {
             "harness snapshot (content digest of sections, labels, fixups, relocations, nodes).",
 }
 MODS = ["AsmjitVerif.Props.C14", "AsmjitVerif.Props.C14Builder"]
+A64_PCREL = set()    # instruction ids that have a Label form
 A64_NAMES = {}      # instruction id -> name (filled from the typed overloads of a64emitter.h on every run)
 INVALID = 0xFFFFFFFF
 
@@ -74,7 +75,9 @@ class Gen:
         r = self.rng
         if not wild:
             return r.randrange(8) if self.arch == "x86" else r.randrange(16 if not self.a64 else 31)
-        return r.choice((r.randrange(32), r.randrange(256), 31, 32, 33, 40, 63, 64, 15, 16, 7, 8, 255, 254, 127, 128))
+        # physical ids in and out of every register file, and virtual ids (>= 256: only a Compiler may accept them)
+        return r.choice((r.randrange(32), r.randrange(256), 31, 32, 33, 40, 63, 64, 15, 16, 7, 8, 255, 254, 127, 128,
+                         256, 257, 258, 300, 511, 65535, 0xFFFFFFFE))
 
     # ---- x86 ----
     def x86_mem(self, wild, size=None):
@@ -204,6 +207,29 @@ class Gen:
             extra = r.choice(("16.%d" % r.randrange(8), "16.%d" % r.randrange(8), "6.1", "5.1", "%d.%d" % (r.randrange(32), r.randrange(40))))
         if r.random() < 0.2:
             cmt = 1
+        if self.a64 and self.corpus and r.random() < 0.15:
+            # position sweep: an accepted form with ONE register position replaced by SP/WSP (id 31), ZR (63), the first id outside the
+            # file (32), a virtual id, or the register of the other size - every operand position of every encoding class gets its turn;
+            # no decoration, so that C02's encoder model judges the outcome
+            inst, kinds, ops, ctx = r.choice(self.corpus)
+            ops = list(ops)
+            regpos = [i for i, t in enumerate(ops) if t[0] in "rv"]
+            if regpos:
+                i = r.choice(regpos)
+                t = ops[i]
+                if t[0] == "r":
+                    ty, _ = t[1:].split(".")
+                    v = r.choice(("31", "31", "63", "32", "256", "size"))
+                    ops[i] = "r%s.%s" % (("5" if ty == "6" else "6"), t[1:].split(".")[1]) if v == "size" else "r%s.%s" % (ty, v)
+                else:
+                    p = t[1:].split(".")
+                    v = r.choice(("31", "32", "63", "size"))
+                    if v == "size":
+                        p[0] = str(r.choice([x for x in (7, 8, 9, 10, 11) if str(x) != p[0]]))
+                    else:
+                        p[1] = v
+                    ops[i] = "v" + ".".join(p)
+            return "emit %d 0 - 0 %s" % (inst, " ".join(ops))
         if self.a64 and self.byelem and r.random() < 0.12:
             # vector x indexed-element forms with half-precision/halfword elements: the indexed register only has a 4-bit field
             inst = r.choice(self.byelem)
@@ -427,12 +453,10 @@ def phys_ids(op_words, inst_name=None):
     toks = op_words[5:]
     if inst_name in A64_BY_ELEMENT_H_RM4 and len(toks) == 3 and all(t[0] == "v" for t in toks):
         p = toks[2][1:].split(".")
-        if int(p[2]) == 2 and int(p[3]) >= 0 and int(p[1]) < 256:
+        if int(p[2]) == 2 and int(p[3]) >= 0:
             out.append((int(p[1]), 15))
 
     def add(t, i):
-        if i >= 256:
-            return
         if t in (5, 6):
             out.append((31 if i == 63 else i, 31))
         elif 7 <= t <= 15:
@@ -464,6 +488,35 @@ def pre_of(op):
     return w[0] if w and w[0].startswith("@") else None
 
 
+DEFINED_REG_TYPES = set()   # RegType values with register traits (read from core/operand.h on every run); any other type makes
+#                             Reg::from_type_and_id an operand without a register
+
+
+def x86_phys_ids(op_words, emitter):
+    """x86 under strict validation: no register file has more than 32 registers, so an accepted operand (register, extra register, memory
+    base / index) names an id <= 31 - or, in a Compiler only, a virtual id (>= 256)."""
+    out = []
+
+    def add(t, i):
+        if t not in DEFINED_REG_TYPES or (emitter == "cmp" and i >= 256):
+            return
+        out.append((i, 31))
+
+    if op_words[3] != "-" and int(op_words[3].split(".")[0]) in (2, 3, 4, 5, 6, 16):   # {k} / rep counter
+        add(int(op_words[3].split(".")[0]), int(op_words[3].split(".")[1]))
+    for tok in op_words[5:]:
+        if tok[0] == "r":
+            t, i = tok[1:].split(".")
+            add(int(t), int(i))
+        elif tok[0] == "m":
+            p = tok[2:].split(",")
+            if tok[1] == "r" and int(p[0]) != 31:      # rip has no id of its own
+                add(int(p[0]), int(p[1]))
+            if int(p[2]) != 0:
+                add(int(p[2]), int(p[3]))
+    return out
+
+
 def monitor_line(sess_hdr, op, d):
     w = opw(op)
     arch, emitter, handler = sess_hdr[1], sess_hdr[2], sess_hdr[3]
@@ -474,6 +527,8 @@ def monitor_line(sess_hdr, op, d):
         refs = label_refs(w, arch == "a64")
         if arch == "a64" and emitter == "asm":
             phys = phys_ids(w, A64_NAMES.get(int(w[1]) & 0xFFFF))
+        elif arch != "a64" and sess_hdr[4] == "1":
+            phys = x86_phys_ids(w, emitter)
     return "mon %s %d %s %d %s %s %s %s %s %s %s %s %s %s ; %s ; %s ; %s ; %s ; %s" % (
         kind, 1 if emitter == "asm" else 0, handler, d["ret"], d["handled"], d["thrown"], d["os"][0], d["os"][1], d["os"][2], d["os"][3],
         d["pre"][0], d["pre"][1], d["pre"][2], d["pre"][3], d["B"], d["A"], d["S"], ",".join(map(str, refs)) or "-", ",".join("%d:%d" % p for p in phys) or "-")
@@ -658,6 +713,13 @@ def judge(h, sessions, names):
         if model_got(got, mod_unk[k]) != mod_exp[k]:
             seen.add(si)
             res["diffs"].append((i, model_got(got, mod_unk[k]), mod_exp[k]))
+    # AArch64 Assembler calls against C02's encoder model
+    obad, ostats = c14_a64oracle.judge(sessions, answers, names, opw, parse_answer, errname, A64_PCREL)
+    res["a64_oracle"] = ostats
+    res["oracle_bad"] = [(si, oi, kind, m, impl) for si, oi, kind, m, impl in obad if si >= 0 and si not in bad_sessions]
+    if any(si < 0 for si, *_ in obad):
+        res["protocol"] = obad[0][3]
+        return res
     # Builder sessions against Model/Builder.lean (driver component C14B) + the finalize tie
     bdiffs, bstats = c14_builder.judge_builder(h, sessions, answers, names, opw, pre_of, parse_answer, errname)
     res["builder"] = bstats
@@ -716,6 +778,10 @@ def run(res):
         vlib.gen_write("AsmjitVerif/Gen/ErrorCodes.lean", gen_c14.render_error_codes(names))
         forms_by_arch = {a: gen_c14.forms(R, a) for a in ("x86", "a64")}
         A64_NAMES.update({f[0]: f[1] for f in forms_by_arch["a64"][0]})
+        A64_PCREL.update(f[0] for f in forms_by_arch["a64"][0] if "Label" in f[2])
+        DEFINED_REG_TYPES.update(gen_c14.defined_reg_types(R))
+        c14_a64oracle.DEFINED.clear()
+        c14_a64oracle.DEFINED.update(DEFINED_REG_TYPES)
     except gen_c14.TranslateError as e:
         res.violation("translator tools/gen_c14.py no longer understands the sources: %s" % e, {"unchecked": str(e)}, False, key="obligation")
         return
@@ -753,6 +819,8 @@ def run(res):
     # targeted sessions first (the classes the property names), so that they are always present
     x86_forms = forms_by_arch["x86"][0]
     mov = next(f[0] for f in x86_forms if f[1] == "mov" and f[2] == ("Gp", "Mem"))
+    vaddps = next(f[0] for f in x86_forms if f[1] == "vaddps" and f[2] == ("Vec", "Vec", "Vec"))
+    mov_rr = next(f[0] for f in x86_forms if f[1] == "mov" and f[2] == ("Gp", "Gp"))
     a64_forms = forms_by_arch["a64"][0]
     add3 = next(f[0] for f in a64_forms if f[1] == "add" and f[2] == ("Vec", "Vec", "Vec"))
     cmp2 = next(f[0] for f in a64_forms if f[1] == "cmp" and f[2] == ("Gp", "Gp"))
@@ -765,6 +833,12 @@ def run(res):
         ["new x64 asm rec 1", "label", "emit %d 10 - 0 l0" % next(f[0] for f in x86_forms if f[1] == "jmp" and f[2] == ("Label",)),
          "embed " + "90" * 130, "cpool 0 8 1", "bind 0", "embed 90", "align 0 16"],
         ["new a64 asm rec 0", "label", "@0,-,1 bind 3", "@0,-,1 bind 0", "@0,-,1 bind 0", "@0,-,1 embed 01", "@0,-,1 align 0 8"],
+        # validator holes closed by fix C14-15: {k36} / a virtual {k} outside a Compiler / instruction id 0 with arbitrary operands
+        ["new x64 asm rec 1", "emit %d 0 16.3 0 r13.1 r13.2 r13.3" % vaddps, "emit %d 0 16.36 0 r13.1 r13.2 r13.3" % vaddps,
+         "emit %d 0 16.300 0 r13.1 r13.2 r13.3" % vaddps],
+        ["new x64 bld thr 1", "emit %d 0 16.36 0 r13.1 r13.2 r13.3" % vaddps, "emit %d 0 16.300 0 r13.1 r13.2 r13.3" % vaddps,
+         "emit 0 0 - 0 r13.255 r6.300", "emit %d 0 - 0 r6.300 r6.2" % mov_rr, "emit %d 0 - 0 r6.1 mr6,300,0,0,0,0,8,0,0,0,0" % mov],
+        ["new x64 cmp rec 1", "emit 0 0 - 0 r13.255 r6.40", "emit %d 0 16.36 0 r13.1 r13.2 r13.3" % vaddps],
         ["new a64 bld rec 0", "label", "bind 5", "bind 0", "bind 0"],
         ["new x64 asm rec 1", "label", "label", "embed 01", "bind 0", "cpool 0 8 2", "cpool 7 8 2", "cpool 1 8 2", "cpool 1 4 1"],
         ["new a64 bld thr 0", "label", "label", "embed 01", "bind 0", "cpool 0 8 2", "cpool 1 8 2"],
@@ -839,6 +913,7 @@ def run(res):
     res.coverage["monitored_answers"] = r["mon_n"]
     res.coverage["sessions_cut_at_defect_18_C03"] = r["tainted"]
     res.coverage["builder_model_correspondence"] = r.get("builder", {})
+    res.coverage["a64_encoder_model_C02_as_oracle"] = r.get("a64_oracle", {})
     res.coverage["traces_validated_against_impl"] = r["mod_n"]
     idxs = [i for i in (5, len(flat) // 3, len(flat) // 2, len(flat) - 2) if 0 <= i < len(flat) and flat[i].split()[0] != "new"]
     res.add_samples([{"op": flat[i], "impl": impl[i][:300]} for i in idxs])
@@ -861,6 +936,21 @@ def run(res):
                       "fresh = differs from an emitter that only saw the accepted calls)" % (
                           sess[0], flat[i], errname(names, d["ret"]), d["handled"], v),
                       {"ops": ops, "monitor": v, "answer": impl[i][:600]}, found_input=True, key=key)
+    seen_o = set()
+    for si, oi, kind, m, impl in r.get("oracle_bad", []):
+        w = opw(sessions[si][oi])
+        name = A64_NAMES.get(int(w[1]) & 0xFFFF, w[1])
+        key = "a64:%s:%s" % (kind, m.split()[1] if kind == "refuses" else name)
+        if key in seen_o:
+            continue
+        seen_o.add(key)
+        what = {"refuses": "the real assembler ACCEPTS an instruction the encoder model refuses",
+                "accepts": "the real assembler refuses an instruction the encoder model encodes",
+                "words": "the real assembler appends other words than the encoder model"}[kind]
+        res.violation("AArch64 `%s`: %s (C02's Model/A64Asm*.lean, proved against the ISA database): call %r of session %r: model %s, "
+                      "implementation %s" % (name, what, sessions[si][oi], sessions[si][0], m, impl),
+                      {"ops": [sessions[si][0], sessions[si][oi]] if not any(t[0] in "lM" for t in w[5:]) else sessions[si][:oi + 1],
+                       "model": m, "impl": impl}, found_input=True, key=key)
     if r.get("fin_diffs"):
         i, got, exp = r["fin_diffs"][0]
         si, oi = owner[i]
